@@ -149,6 +149,69 @@ func genC06(rt *rapid.T) Case {
 	return Case{Cfg: cfg, Steps: GenSchedule(rt, cfg, o)}
 }
 
+// genC06CatchUp: a replica that has to catch up while the blocks it misses cannot be fetched, and later can. The leader of
+// every view is the Byzantine actor, honest by default but refusing block fetches; one honest replica is cut off while the
+// others go on; then it is alone with the leader (whose next proposal it receives, whose blocks it cannot get, and from the
+// others it is still cut off); then the network heals. Everything the replica commits late must be executed completely and
+// in order.
+func genC06CatchUp(rt *rapid.T) Case {
+	cfg := Config{N: 4, Rules: rapid.SampledFrom(AllRules).Draw(rt, "rules"), Crypto: "fast", Batch: rapid.IntRange(1, 2).Draw(rt, "batch"), ActorAuto: true}
+	actor := rapid.IntRange(1, 4).Draw(rt, "actor")
+	cfg.Actors, cfg.Leaders = []int{actor}, []int{actor}
+	var honest []int
+	for i := 0; i < 4; i++ {
+		if i+1 != actor {
+			honest = append(honest, i)
+		}
+	}
+	r := honest[rapid.IntRange(0, 2).Draw(rt, "lagging")]
+	pow := func(i int) int {
+		p := 1
+		for ; i > 0; i-- {
+			p *= 3
+		}
+		return p
+	}
+	var steps []Step
+	burst := func(n int) {
+		for i := 0; i < n; i++ {
+			steps = append(steps, Step{K: KBurst, C: 5})
+		}
+	}
+	burst(rapid.IntRange(0, 3).Draw(rt, "warm"))
+	if rapid.IntRange(0, 3).Draw(rt, "refuse") > 0 {
+		steps = append(steps, Step{K: KActor, A: AToggleFetch})
+	}
+	steps = append(steps, Step{K: KPartition, A: pow(r)}) // r alone in group 1
+	burst(rapid.IntRange(2, 10).Draw(rt, "apart"))
+	steps = append(steps, Step{K: KDropCross})
+	// the proposals made from here on stay in flight towards r: they are all it gets to see of what it missed
+	burst(rapid.IntRange(0, 2).Draw(rt, "tail"))
+	// r together with the leader (group 1), the other two honest replicas in group 0
+	steps = append(steps, Step{K: KPartition, A: pow(r) + pow(actor-1)})
+	if rapid.IntRange(0, 3).Draw(rt, "recent-only") > 0 {
+		// the leader hands out the newest blocks but withholds older ones: what the replica needs to follow the proposals
+		// it can get, the ancestors it must execute it cannot - until the network heals
+		steps = append(steps, Step{K: KActor, A: AServeRecentOnly, B: rapid.IntRange(0, 4).Draw(rt, "recent")})
+	}
+	burst(rapid.IntRange(1, 3).Draw(rt, "alone-with-leader"))
+	if rapid.Bool().Draw(rt, "timeout") {
+		steps = append(steps, Step{K: KTimeoutPart, B: 1}, Step{K: KBurst, C: 5})
+	}
+	steps = append(steps, Step{K: KHeal})
+	if rapid.Bool().Draw(rt, "serve-again") {
+		steps = append(steps, Step{K: KActor, A: AToggleFetch})
+	}
+	burst(rapid.IntRange(2, 6).Draw(rt, "after"))
+	steps = append(steps, GenSteps(rt, cfg, GenOpts{MaxSteps: 12})...)
+	burst(2)
+	return Case{Cfg: cfg, Steps: steps}
+}
+
+func TestC06ExecutionCatchUp(t *testing.T) {
+	common.Check(t, "C06", "TestC06ExecutionCatchUp", 2000, 40000, genC06CatchUp, c06Prop)
+}
+
 func TestC06Execution(t *testing.T) {
 	common.Check(t, "C06", "TestC06Execution", 5000, 100000, genC06, c06Prop)
 }
